@@ -125,6 +125,12 @@ Proof. start; dv a7; nf; fin. Qed.
 
 Lemma refine_probetotal : step_goal S0 C0 SnProbeTotal.
 Proof. start; nf; fin. Qed.
+
+(* runs that end successfully with the exception flag still set: nothing but their output is observable *)
+Lemma refine_swallowok : step_goal S0 C0 SnSwallowOk.
+Proof. start; nf; fin. Qed.
+Lemma refine_parkfin : step_goal S0 C0 SnParkFin.
+Proof. start; nf; fin. Qed.
 End Plain.
 
 Section Imports.
@@ -200,7 +206,7 @@ Proof.
   intros [sg si] [he fibs cd [mg mb mm ms mn] ch rg [a0 a1 a2 a3 a4 a5 a6 a7 a8 a9 a10 a11 a12]] sn
          [Hgl Hi [Hu1 Hu2] Hf Hg].
   cbn in Hgl, Hi, Hu1, Hu2, Hf, Hg. subst sg mm ms.
-  destruct sn as [g z|g|f g|f|cl z|cl|pre|w d|  |  |  |  |k|  |  |  |m|m| ].
+  destruct sn as [g z|g|f g|f|cl z|cl|pre|w d|  |  |  |  |k|  |  |  |  |  |m|m| ].
   - apply refine_var; auto.
   - apply refine_print; auto.
   - apply refine_fn; auto.
@@ -217,6 +223,8 @@ Proof.
   - apply refine_useleak; auto.
   - apply refine_usefiber; auto.
   - apply refine_probetotal; auto.
+  - apply refine_swallowok; auto.
+  - apply refine_parkfin; auto.
   - destruct m.
     + apply refine_import_good; auto.
     + apply refine_import_throw; auto.
@@ -256,6 +264,16 @@ Proof. exact failed_snippet_only_definitions. Qed.
 Theorem failed_import_refuted_old : exists h, map fst (mech_variant false h) <> eval_spec h.
 Proof. exists [SnImport MThrow; SnImport MThrow]; vm_compute; discriminate. Qed.
 
+(* clearing the flag where a failed run ends (reset_stack) instead of where a run starts (execute) does NOT refine the
+   Spec: a run can end successfully with the flag set, and the next try/finally re-raises a value that was never thrown.
+   On histories whose only flag-setting snippets are uncaught errors the two designs agree (first conjunct: an instance) *)
+Theorem late_flag_reset_refuted :
+  map fst (eval_mech_late [SnThrow WTryFinally None; SnTryFin; SnThrow WTop None; SnTryFin]) =
+    eval_spec [SnThrow WTryFinally None; SnTryFin; SnThrow WTop None; SnTryFin] /\
+  map fst (eval_mech_late [SnSwallowOk; SnTryFin]) <> eval_spec [SnSwallowOk; SnTryFin] /\
+  map fst (eval_mech_late [SnParkFin; SnTryFin]) <> eval_spec [SnParkFin; SnTryFin].
+Proof. split; [vm_compute; reflexivity | split; vm_compute; discriminate]. Qed.
+
 Example refines_example :
   map fst (eval_mech [SnVar I0 5%Z; SnImport MGood; SnThrow WTryFinally (Some (I1, 2%Z)); SnTryFin; SnThrow WClassDef None;
                       SnClass I0 7%Z; SnUse I0; SnImport MThrow; SnImport MThrow; SnImport MNest; SnImport MGood;
@@ -266,3 +284,4 @@ Proof. vm_compute; discriminate. Qed.
 Print Assumptions failed_snippet_only_definitions.
 Print Assumptions run_leaves_clean_always.
 Print Assumptions failed_import_refuted_old.
+Print Assumptions late_flag_reset_refuted.
